@@ -265,3 +265,53 @@ def _check_orphan_hole(ctx, m, names, cfg, rule):
                       % (t.where(), explore.trail_lines(f, s.trail)), call.where(), inst)
     else:
         ctx.ok(rule, inst, "with findPolygonForHole assumed NULL every path frees the orphaned loop before the next hole or the return")
+
+
+# ---- L6: append-at-tail protocol of addNewLinkedPolygon
+def check_tail_protocol(ctx, m, cfg, rule="R-OWN"):
+    """addNewLinkedPolygon(p) links a fresh polygon behind p by OVERWRITING p->next (its assert that p is the tail is compiled out in
+    release builds).  A call that is executed twice for the same object p therefore orphans the polygon appended the first time: it is
+    no longer reachable from the result and destroyLinkedMultiPolygon cannot release it.  Typestate: an object handed to the call is
+    'has a successor' afterwards; handing it over again is a violation.  Objects are tracked when they are the same SSA value across
+    executions (parameters, values defined outside every cycle through the call); flags that are phis of constants are interpreted
+    exactly by the exploration, so a guarded single execution is not reported."""
+    from .rules_fold import _in_cycle
+    n = 0
+    for f in m.defined():
+        calls = [i for i in f.all_insts() if i.op == "call" and i.callee == "addNewLinkedPolygon"]
+        if not calls:
+            continue
+        found = []
+
+        def key_of(o):
+            while o[0] == "i" and f.insts[o[1]].op in ("bitcast", "freeze"):
+                o = f.insts[o[1]].ops[0]
+            if o[0] == "a":
+                return ("a", o[1])
+            if o[0] == "i" and not _in_cycle(f, f.insts[o[1]].block.idx):
+                return ("i", o[1])
+            return None
+
+        class P:
+            def on_inst(self, ex, s, i):
+                if i.op == "call" and i.callee == "addNewLinkedPolygon":
+                    k = key_of(i.ops[0])
+                    if k is not None:
+                        if s.env.get(("tail-used", k)):
+                            found.append((i, k, s))
+                        s.env[("tail-used", k)] = True
+                return None
+        Explorer(f, plugin=P()).run()
+        for c in calls:
+            n += 1
+            inst = {"rule": "L6", "function": f.name, "at": c.where(), "config": cfg}
+            hit = [x for x in found if x[0].id == c.id]
+            if hit:
+                i, k, s = hit[0]
+                nm = f.args[k[1]]["name"] if k[0] == "a" else "%" + (f.insts[k[1]].name or str(k[1]))
+                ctx.violation(rule, "L6:append-twice:%s:%s" % (f.name, nm),
+                              "%s calls addNewLinkedPolygon(%s) again for the same object: the call overwrites %s->next, so the polygon appended before is no longer reachable from the "
+                              "result (wrong outline) and is never released by destroyLinkedMultiPolygon (path lines %s)" % (f.name, nm, nm, explore.trail_lines(f, s.trail)), i.where(), inst)
+            else:
+                ctx.ok(rule, inst, "no object is handed to addNewLinkedPolygon twice: each call appends behind the polygon the previous call returned")
+    return n
